@@ -311,6 +311,46 @@ def run(ck: Check):
                 break
         ck.case(dict(kind="accuracy-queue-ops", cap=cap, n=len(hist)), nontrivial="D" in hist, key=repr(("aqops", cap, hist)))
         ck.count("accuracy_queue_op_sequences")
+    # ... and with keep-last (maintain_last_element) among the operations (own generator): the counters are those of the
+    # one element kept (F48: before the repair the inherited method left num_true untouched)
+    krng = _random.Random(181819)
+    for k in range(40 if not thorough else 300):
+        cap = krng.choice([1, 2, 3, 4])
+        a = AccuracyQueue(max_len=cap)
+        ref = collections.deque()
+        hist = []
+        for _ in range(krng.randrange(4, 25)):
+            op = krng.choice(["T", "T", "F", "F", "D", "K", "K", "C"])
+            hist.append(op)
+            try:
+                if op in "TF":
+                    a.enqueue(value=(op == "T"))
+                    if len(ref) == cap:
+                        ref.popleft()
+                    ref.append(op == "T")
+                elif op == "D":
+                    if not ref:
+                        continue
+                    a.dequeue()
+                    ref.popleft()
+                elif op == "K":
+                    a.maintain_last_element()
+                    if ref:
+                        lastv = ref[-1]
+                        ref.clear()
+                        ref.append(lastv)
+                else:
+                    a.clear()
+                    ref.clear()
+            except Exception as e:  # noqa: BLE001
+                ck.violation(dict(clause="raises", structure="AccuracyQueue", error=type(e).__name__, ops="with-keep-last"), dict(what="a legal AccuracyQueue operation raised", max_len=cap, ops=hist, error=repr(e)))
+                break
+            content = [bool(a.queue[(a.first + j) % cap]) for j in range(a.count)]
+            if content != list(ref) or a.num_true != sum(ref) or a.num_false != len(ref) - sum(ref) or a.size != len(ref):
+                ck.violation(dict(clause="accuracy-queue-counts", op="keep-last-sequence"), dict(what="after a sequence with keep-last the contents / counters differ from a bounded deque's", max_len=cap, ops=hist, contents=content, num_true=int(a.num_true), num_false=int(a.num_false), expected=list(ref)))
+                break
+        ck.case(dict(kind="accuracy-queue-ops-keep-last", cap=cap, n=len(hist)), nontrivial="K" in hist, key=repr(("aqkeep", cap, hist)))
+        ck.count("accuracy_queue_keep_last_sequences")
     # EWMA at the ends of its range and on extreme magnitudes: mean = alpha x + (1 - alpha) mean as written (exact for
     # alpha = 1: the last value; finite whenever the weighted sum is)
     for alpha, xs in ((1.0, [1e16, 1.0, -3.0]), (1.0, [-1e300, 2.5]), (0.0, [5.0, 1e300]), (0.1, [1.7e308, -1.7e308, 1.7e308]), (0.5, [1e308, 1e308, -1e308])):
@@ -355,6 +395,24 @@ def run(ck: Check):
             if bad:
                 ck.violation(dict(clause="statistic-definition", stat=bad[0], regime="typed-values", dtype=dt.__name__),
                              dict(what="fed NumPy integer scalars the statistic leaves its definition", stat=bad, dtype=dt.__name__, values=vals[:t], got=got[t - 1], expected=ref))
+                break
+    # PrequentialError fed reduced-precision NumPy floats (np.float32 / np.float16 error values are numbers): no exception, and
+    # the faded mean to the precision of the carrier type
+    for dt, tolr in ((np.float32, 1e-5), (np.float16, 5e-2), (np.longdouble, 1e-9)):
+        errs = [0.0, 1.0, 0.5, 1.0, 0.25, 0.0, 1.0]
+        try:
+            p = PrequentialError(alpha=0.9)
+            got = [float(p(dt(er))) for er in errs]
+        except Exception as ex:  # noqa: BLE001
+            ck.violation(dict(clause="statistic-definition", stat="PrequentialError", regime="typed-values", dtype=dt.__name__, error=type(ex).__name__), dict(what="PrequentialError raised on NumPy floating error values", dtype=dt.__name__, errors=errs, error=repr(ex)))
+            continue
+        ck.case(dict(kind="prequential-typed-values", dtype=dt.__name__), nontrivial=True, key=repr(("preq-typed", dt.__name__)))
+        ck.count("prequential_typed_value_cases")
+        for t in range(1, len(errs) + 1):
+            den = math.fsum(0.9 ** (t - 1 - k) for k in range(t))
+            ref = math.fsum(0.9 ** (t - 1 - k) * errs[k] for k in range(t)) / den
+            if not abs(got[t - 1] - ref) <= tolr:
+                ck.violation(dict(clause="statistic-definition", stat="PrequentialError", regime="typed-values", dtype=dt.__name__), dict(what="PrequentialError on NumPy floating error values leaves its definition", dtype=dt.__name__, errors=errs[:t], got=got[t - 1], expected=ref))
                 break
     # PrequentialError with a fading factor next to 1 (valid: alpha in (0, 1]): sum alpha^(t-i) e_i / sum alpha^(t-i), reference by
     # direct summation; an algebraically equal closed form of the denominator, (1 - alpha^t) / (1 - alpha), cancels there
